@@ -1,8 +1,272 @@
-(* C11/Property.v — property theorems only (provisional). *)
+(* C11/Property.v — property theorems only.
+   "The metadata store answers exactly what authentic, current metadata says."
+   [cur] = the code as it is now (after d8b1d2a4, 18964551, fafdf54c, 254349bd, a8da97db, ab8ae013); [v0] = before them. *)
 From Coq Require Import String List Bool ZArith.
-From Verif Require Import Base.Str C11.Model C11.Dec C11.Spec C11.Proofs.
+From Verif Require Import Base.Str C11.Model C11.Dec C11.Spec C11.Proofs C11.Lookup C11.Sim C11.Facts.
+Import ListNotations.
 
+(* ---- the main theorem: on EVERY history (loads, reloads, MDQ fetches, clock ticks, server changes, queries;
+   any documents, any signature states, any server answers, any failure positions) the model's outputs are the
+   outputs of the reference store of Spec.v.  No guard, no hypothesis. *)
+Theorem c11_store_conforms : forall now h, spec (rinit now) h (run cur (init now) h).
+Proof. exact model_satisfies_spec. Qed.
+Print Assumptions c11_store_conforms.
+
+(* the same from any reachable state: the model refines the reference store step by step *)
+Theorem c11_refines : forall h w, winv w -> spec (abs w) h (run cur w h).
+Proof. exact refines. Qed.
+Print Assumptions c11_refines.
+
+(* each query is answered EXACTLY as the reference store answers it (first source wins for every lookup,
+   service() and with_descriptor() included; MDQ: verified, current, asked-for entity only) *)
+Theorem c11_query_exact : forall now srv srcs q srcs' a,
+  all_inv srcs -> answer_query cur now srv srcs q = (srcs', a) ->
+  ref_answer now srv (abs_srcs srcs) q = (abs_srcs srcs', a) /\ all_inv srcs'.
+Proof. exact query_sim. Qed.
+Print Assumptions c11_query_exact.
+
+(* the boolean spec evaluated on the implementation's recorded outputs is the stated spec *)
+Theorem c11_spec_reflect : forall w h obs, spec_b w h obs = true <-> spec w h obs.
+Proof. exact spec_b_iff. Qed.
+Print Assumptions c11_spec_reflect.
+
+(* ---- what a source serves for an entity is the first current, SAML 2.0 capable descriptor of the document *)
 Theorem c11_view_chosen : forall cv now es id en,
   lookup id (view cv now es) = Some en <-> exists e, chosen cv now es id e /\ en = prune e.
 Proof. exact view_chosen. Qed.
 Print Assumptions c11_view_chosen.
+
+Theorem c11_not_served : forall cv now es id,
+  lookup id (view cv now es) = None <-> forall e, In e es -> e_id e = id -> ~ eligible cv now e.
+Proof. exact not_served. Qed.
+Print Assumptions c11_not_served.
+
+Theorem c11_parse_is_view : forall cv now p,
+  parse cv now [] p = match doc_says cv now p with Some es => Some (view cv now es) | None => None end.
+Proof. exact parse_doc_says. Qed.
+Print Assumptions c11_parse_is_view.
+
+(* ---- lookup soundness / completeness against the document, for all documents *)
+Theorem c11_service_sound : forall cv now es id en typ name b l s,
+  lookup id (view cv now es) = Some en -> ent_service en typ name (Some b) = SList l -> In s l ->
+  says_endpoint cv now es id typ name b s.
+Proof. exact service_sound. Qed.
+Print Assumptions c11_service_sound.
+
+Theorem c11_service_complete : forall cv now es id typ name b s,
+  b <> EmptyString -> says_endpoint cv now es id typ name b s ->
+  exists en l, lookup id (view cv now es) = Some en /\ ent_service en typ name (Some b) = SList l /\ In s l.
+Proof. exact service_complete. Qed.
+Print Assumptions c11_service_complete.
+
+Theorem c11_service_dict_exact : forall cv now es id en typ name d b s,
+  lookup id (view cv now es) = Some en -> ent_service en typ name None = SDict d ->
+  ((exists l, lookup b d = Some l /\ In s l) <-> says_endpoint cv now es id typ name b s).
+Proof. exact service_dict_exact. Qed.
+Print Assumptions c11_service_dict_exact.
+
+Theorem c11_certs_exact : forall cv now es id en typ use l c,
+  lookup id (view cv now es) = Some en -> typ <> "any"%string -> ent_certs en typ use = ACerts l ->
+  (In c l <-> says_cert cv now es id typ use c).
+Proof. exact certs_exact. Qed.
+Print Assumptions c11_certs_exact.
+
+Theorem c11_certs_complete : forall cv now es id typ use c,
+  typ <> "any"%string -> says_cert cv now es id typ use c ->
+  exists en l, lookup id (view cv now es) = Some en /\ ent_certs en typ use = ACerts l /\ In c l.
+Proof. exact certs_complete. Qed.
+Print Assumptions c11_certs_complete.
+
+Theorem c11_certs_any_exact : forall cv now es id en use l c,
+  lookup id (view cv now es) = Some en -> ent_certs en "any" use = ACerts l ->
+  (In c l <-> exists typ, In typ PROTO_KINDS /\ says_cert cv now es id typ use c).
+Proof. exact certs_any_exact. Qed.
+Print Assumptions c11_certs_any_exact.
+
+Theorem c11_attr_req_exact : forall cv now es id en index req opt n,
+  lookup id (view cv now es) = Some en -> ent_attr_req en index = AReq req opt ->
+  (In n req <-> says_reqattr cv now es id index true n) /\ (In n opt <-> says_reqattr cv now es id index false n).
+Proof. exact attr_req_exact. Qed.
+Print Assumptions c11_attr_req_exact.
+
+Theorem c11_categories_exact : forall cv now es id en c,
+  lookup id (view cv now es) = Some en -> (In c (ent_cats en) <-> says_category cv now es id c).
+Proof. exact categories_exact. Qed.
+Print Assumptions c11_categories_exact.
+
+Theorem c11_registration_exact : forall cv now es id en auth inst,
+  lookup id (view cv now es) = Some en ->
+  ((exists pols, ent_reg en = AReg (Some auth) inst pols) <-> says_registration cv now es id auth inst).
+Proof. exact registration_exact. Qed.
+Print Assumptions c11_registration_exact.
+
+(* ---- load / reload: failures, atomicity (any mixture of repairs), signature gate (now) *)
+Theorem c11_reload_atomic : forall fl ns now st items st',
+  reload fl ns now st items = (st', false) -> st_srcs st' = st_srcs st.
+Proof. exact reload_atomic. Qed.
+Print Assumptions c11_reload_atomic.
+
+Theorem c11_reload_replaces : forall fl ns now st items st',
+  reload fl ns now st items = (st', true) -> imp fl ns now {| st_srcs := []; st_ii := st_ii st |} items = (st', true).
+Proof. exact reload_replaces. Qed.
+Print Assumptions c11_reload_replaces.
+
+Theorem c11_load_failure_adds_nothing : forall fl ns now st sp f st',
+  load1 fl ns now st sp f = (st', false) -> st_srcs st' = st_srcs st.
+Proof. exact load_failure_adds_nothing. Qed.
+Print Assumptions c11_load_failure_adds_nothing.
+
+Theorem c11_imp_failure : forall fl ns now items st st',
+  imp fl ns now st items = (st', false) ->
+  exists pre it post st1 st2,
+    items = (pre ++ it :: post)%list /\ imp fl ns now st pre = (st1, true) /\
+    load1 fl ns now st1 (fst it) (snd it) = (st2, false) /\ st_srcs st' = st_srcs st1.
+Proof. exact imp_failure. Qed.
+Print Assumptions c11_imp_failure.
+
+Theorem c11_static_load_serves_view : forall fl ns now st sp f st',
+  sp_kind sp <> KMdq -> load1 fl ns now st sp f = (st', true) ->
+  exists p sg es k,
+    f = FBody p sg /\ doc_says (eff_cv ns sp) now p = Some es /\
+    sig_gate fl (eff_cert fl ns sp) (sp_kind sp) (eff_node ns sp) p sg = true /\
+    In (k, SStatic (view (eff_cv ns sp) now es)) (st_srcs st').
+Proof. exact static_load_serves_view. Qed.
+Print Assumptions c11_static_load_serves_view.
+
+(* a successful load was acceptable: where a certificate is configured the document's signature verified *)
+Theorem c11_load_accepted : forall ns sp now f m, load_static cur ns sp now f = Some m -> accept ns now sp f = Some m.
+Proof. exact load_static_accept. Qed.
+Print Assumptions c11_load_accepted.
+
+Theorem c11_cert_needs_valid : forall ns sp now d sg m,
+  load_static cur ns sp now (FBody (D d) sg) = Some m -> cfg_cert ns sp = true -> sg = SigValid.
+Proof. exact cert_needs_valid. Qed.
+Print Assumptions c11_cert_needs_valid.
+
+Theorem c11_queries_keep_sources : forall fl now srv srcs q, map fst (fst (answer_query fl now srv srcs q)) = map fst srcs.
+Proof. exact answer_query_keys. Qed.
+Print Assumptions c11_queries_keep_sources.
+
+(* ---- precedence between sources: the first configured one wins, for every lookup *)
+Theorem c11_first_source_wins_get : forall fl now srv pre k m post e en,
+  all_static pre ->
+  (forall k' s', In (k', s') pre -> has_key e (ents_of s') = false) -> lookup e m = Some en ->
+  store_get fl now srv (pre ++ (k, SStatic m) :: post) e = (pre ++ (k, SStatic m) :: post, ROk en)%list.
+Proof. exact first_source_wins_get. Qed.
+Print Assumptions c11_first_source_wins_get.
+
+Theorem c11_first_source_wins_service : forall now srv typ name b pre k m post e en,
+  all_static pre ->
+  (forall k' s', In (k', s') pre -> has_key e (ents_of s') = false) -> lookup e m = Some en ->
+  store_service cur now srv (pre ++ (k, SStatic m) :: post) e typ name b
+  = (pre ++ (k, SStatic m) :: post, svc_answer en typ name b)%list.
+Proof. exact first_source_wins_service. Qed.
+Print Assumptions c11_first_source_wins_service.
+
+Theorem c11_service_unknown : forall now srv typ name b e srcs,
+  all_static srcs -> (forall k s, In (k, s) srcs -> has_key e (ents_of s) = false) ->
+  store_service cur now srv srcs e typ name b = (srcs, AUnknown).
+Proof. exact service_unknown. Qed.
+Print Assumptions c11_service_unknown.
+
+Theorem c11_with_descriptor_first_wins : forall kind e l srcs seen,
+  In (e, l) (with_new srcs seen kind) ->
+  ~ In e seen /\
+  exists pre k s post en,
+    srcs = (pre ++ (k, s) :: post)%list /\ (forall k' s', In (k', s') pre -> has_key e (ents_of s') = false) /\
+    In (e, en) (ents_of s) /\ has_descriptor en kind = true /\ l = locs en.
+Proof. exact with_descriptor_first_wins. Qed.
+Print Assumptions c11_with_descriptor_first_wins.
+
+(* ---- MDQ *)
+Theorem c11_mdq_fresh_served : forall fl x now srv e en t,
+  lookup e (x_ents x) = Some en -> lookup e (x_exp x) = Some t -> (now <= t)%Z -> mdx_get fl x now srv e = (x, ROk en).
+Proof. exact mdq_fresh_served. Qed.
+Print Assumptions c11_mdq_fresh_served.
+
+Theorem c11_mdq_expired_refetched : forall fl x now srv e en t,
+  lookup e (x_ents x) = Some en -> lookup e (x_exp x) = Some t -> (t < now)%Z ->
+  mdx_get fl x now srv e =
+  mdx_fetch fl {| x_ents := remove_key e (x_ents x); x_exp := x_exp x; x_cert := x_cert x; x_period := x_period x |} now srv e.
+Proof. exact mdq_expired_refetched. Qed.
+Print Assumptions c11_mdq_expired_refetched.
+
+Theorem c11_mdq_failed_refresh : forall x now srv e en t,
+  lookup e (x_ents x) = Some en -> lookup e (x_exp x) = Some t -> (t < now)%Z ->
+  (ask srv e = FMissing \/ exists sg, ask srv e = FBody Garbage sg) ->
+  exists x', mdx_get cur x now srv e = (x', RKeyErr) /\ lookup e (x_ents x') = None.
+Proof. exact mdq_failed_refresh. Qed.
+Print Assumptions c11_mdq_failed_refresh.
+
+Theorem c11_mdq_nothing_served_nothing_cached : forall x now srv e x' g,
+  mdx_inv x -> mdx_get cur x now srv e = (x', g) ->
+  g <> RRaise /\ (res_opt g = None -> lookup e (x_ents x') = None).
+Proof. exact mdq_nothing_served_nothing_cached. Qed.
+Print Assumptions c11_mdq_nothing_served_nothing_cached.
+
+Theorem c11_mdq_only_asked_entity_stored : forall x now srv e x' g k,
+  mdx_fetch cur x now srv e = (x', g) -> k <> e -> lookup k (x_ents x') = lookup k (x_ents x).
+Proof. exact mdq_only_asked_entity_stored. Qed.
+Print Assumptions c11_mdq_only_asked_entity_stored.
+
+Theorem c11_mdq_served_verified : forall x now srv e x' en,
+  mdx_fetch cur x now srv e = (x', ROk en) ->
+  exists d sg, ask srv e = FBody (D d) sg /\ (x_cert x = true -> sg = SigValid /\ is_group (D d) = false)
+               /\ lookup e (x_ents x') = Some en.
+Proof. exact mdq_served_verified. Qed.
+Print Assumptions c11_mdq_served_verified.
+
+(* ---- the code BEFORE the repairs violated the property: one witness per repaired class, failing with all
+   repairs reverted and with only the responsible commit reverted; what it implemented instead *)
+Theorem c11_fallthrough_v0_refuted : fails v0 witness1 /\ fails rev_fall witness1.
+Proof. exact fallthrough_v0_refuted. Qed.
+Print Assumptions c11_fallthrough_v0_refuted.
+
+Theorem c11_with_last_wins_v0_refuted : fails v0 witness2 /\ fails rev_last witness2.
+Proof. exact with_last_wins_v0_refuted. Qed.
+Print Assumptions c11_with_last_wins_v0_refuted.
+
+Theorem c11_unsigned_under_cert_v0_refuted : fails v0 witness3 /\ fails rev_unsigned witness3.
+Proof. exact unsigned_under_cert_v0_refuted. Qed.
+Print Assumptions c11_unsigned_under_cert_v0_refuted.
+
+Theorem c11_mdq_residue_v0_refuted : fails v0 witness4 /\ fails rev_mdq witness4.
+Proof. exact mdq_residue_v0_refuted. Qed.
+Print Assumptions c11_mdq_residue_v0_refuted.
+
+Theorem c11_mdq_residue_served_v0_refuted : fails v0 witness4b /\ fails rev_mdq witness4b.
+Proof. exact mdq_residue_served_v0_refuted. Qed.
+Print Assumptions c11_mdq_residue_served_v0_refuted.
+
+Theorem c11_mdq_raise_v0_refuted : fails v0 witness5 /\ fails rev_mdq witness5.
+Proof. exact mdq_raise_v0_refuted. Qed.
+Print Assumptions c11_mdq_raise_v0_refuted.
+
+Theorem c11_inline_cert_ignored_v0_refuted : fails v0 witness6 /\ fails rev_inline witness6.
+Proof. exact inline_cert_ignored_v0_refuted. Qed.
+Print Assumptions c11_inline_cert_ignored_v0_refuted.
+
+Theorem c11_service_first_nonempty_v0 : forall fl now srv e typ name b pre k m post en known,
+  all_static pre ->
+  (forall k' m' en', In (k', SStatic m') pre -> lookup e m' = Some en' -> svc_nonempty (ent_service en' typ name b) = false) ->
+  lookup e m = Some en -> svc_nonempty (ent_service en typ name b) = true ->
+  snd (store_service_v0 fl now srv (pre ++ (k, SStatic m) :: post) e typ name b known) = svc_answer en typ name b.
+Proof. exact service_first_nonempty_v0. Qed.
+Print Assumptions c11_service_first_nonempty_v0.
+
+Theorem c11_with_descriptor_last_wins_v0 : forall srcs kind e,
+  lookup e (with_v0 srcs kind) = lookup e (rev (flat_map (fun ks => src_with (snd ks) kind) srcs)).
+Proof. exact with_descriptor_last_wins_v0. Qed.
+Print Assumptions c11_with_descriptor_last_wins_v0.
+
+Theorem c11_mdq_group_raise_v0_refuted : fails v0 witness7 /\ fails rev_group witness7.
+Proof. exact mdq_group_raise_v0_refuted. Qed.
+Print Assumptions c11_mdq_group_raise_v0_refuted.
+
+(* ---- and the code as it is now conforms on every one of these witnesses (instance of c11_store_conforms,
+   evaluated) *)
+Theorem c11_witnesses_conform_now :
+  forallb (fun h => spec_b (rinit T0) h (run cur (init T0) h))
+          [witness1; witness2; witness3; witness4; witness4b; witness5; witness6; witness7] = true.
+Proof. exact witnesses_conform_now. Qed.
+Print Assumptions c11_witnesses_conform_now.
